@@ -33,14 +33,15 @@ func tokenBody(idx int) []byte {
 }
 
 type c16X struct {
-	Body   []byte
-	From   string
-	Rcpts  []string
-	Reject bool
-	LMTP   bool
-	UseCb  bool
-	DataOp int
-	NoopOp int
+	Body        []byte
+	From        string
+	Rcpts       []string
+	Reject      bool
+	LMTP        bool
+	UseCb       bool
+	DataOp      int
+	NoopOp      int
+	ViaSendMail bool
 }
 
 // drawClientBody draws an 8-bit body in which CR occurs only as part of CRLF.
@@ -134,12 +135,19 @@ func genC16(t *Tape, tier string) *Scenario {
 		cl.Split = []int{1 + t.Intn(5), 1 + t.Intn(100), 1 + t.Intn(3000)}
 	}
 	x.UseCb = sc.Srv.LMTP && t.Bool()
-	cl.Ops = append(cl.Ops, ClientOp{Kind: opMail, Arg: x.From})
-	for _, r := range x.Rcpts {
-		cl.Ops = append(cl.Ops, ClientOp{Kind: opRcpt, Arg: r})
+	x.ViaSendMail = !x.UseCb && t.Chance(1, 4)
+	if x.ViaSendMail {
+		// Client.SendMail: Mail, Rcpt..., Data, io.Copy from a reader that returns the body in parts, Close
+		x.DataOp = len(cl.Ops)
+		cl.Ops = append(cl.Ops, ClientOp{Kind: opSendMail, Arg: x.From, To: x.Rcpts, Body: x.Body, Parts: parts})
+	} else {
+		cl.Ops = append(cl.Ops, ClientOp{Kind: opMail, Arg: x.From})
+		for _, r := range x.Rcpts {
+			cl.Ops = append(cl.Ops, ClientOp{Kind: opRcpt, Arg: r})
+		}
+		x.DataOp = len(cl.Ops)
+		cl.Ops = append(cl.Ops, ClientOp{Kind: opData, Body: x.Body, Parts: parts, CloseTwice: true, UseCb: x.UseCb})
 	}
-	x.DataOp = len(cl.Ops)
-	cl.Ops = append(cl.Ops, ClientOp{Kind: opData, Body: x.Body, Parts: parts, CloseTwice: true, UseCb: x.UseCb})
 	x.NoopOp = len(cl.Ops)
 	cl.Ops = append(cl.Ops, ClientOp{Kind: opNoop}, ClientOp{Kind: opQuit})
 	cs := ConnScript{Lat: drawLat(t), LatBack: drawLat(t), SrvCaps: drawCaps(t), Client: cl}
@@ -279,6 +287,9 @@ func classifyC16(sc *Scenario, h *History, st *Stats) string {
 	}
 	if x.Reject {
 		st.Probes["rejected_then_close_twice"]++
+	}
+	if x.ViaSendMail {
+		st.Probes["via_Client.SendMail"]++
 	}
 	if !nt {
 		return ""
